@@ -148,17 +148,31 @@ func (w *stabWorld) commit(i int) error {
 	if n.locked {
 		return nil
 	}
-	settle()
+	settleFirm()
 	if err := drive.Commit(n.uuid); err != nil {
 		return fmt.Errorf("harness: commit: %v", err)
 	}
 	n.locked = true
-	settle()
+	// the reference snapshot must not catch background processing of the node's last writes half-way: it is
+	// taken twice, and once more after a deep settle if the two differ
+	settleFirm()
 	snap, err := observeOnly(w.root, n.uuid, w.reads, w.prot)
 	if err != nil {
 		return err
 	}
-	n.snap = snap
+	settleFirm()
+	again, err := observeOnly(w.root, n.uuid, w.reads, w.prot)
+	if err != nil {
+		return err
+	}
+	if kind, _ := diffObs(snap, again); kind != "" {
+		deepSettle()
+		w.cls["snapshot-retaken-after-deep-settle"]++
+		if again, err = observeOnly(w.root, n.uuid, w.reads, w.prot); err != nil {
+			return err
+		}
+	}
+	n.snap = again
 	return nil
 }
 
